@@ -5,6 +5,7 @@ sys.path.insert(0, os.path.dirname(os.path.abspath(__file__)))
 from framework import *
 
 regenerate_leaves()
+regenerate_bounded()
 ok, lg = coq_make()
 if not ok:
     sys.stderr.write(lg[-6000:])
